@@ -489,29 +489,78 @@ impl Pos {
         sq
     }
 
-    pub fn legal_moves_for(&self, side: Side) -> Vec<Mv> {
-        let mut out = Vec::new();
-        for m in self.pseudo_moves(side) {
-            let mut after = self.clone();
-            after.sq = self.place(&m, side);
-            if !after.in_check(side) {
-                out.push(m);
+    /// Is `m` (pseudo-legal for `side`) legal, i.e. does it leave `side`'s king unattacked?
+    /// Works on a scratch copy that is restored before returning.
+    fn leaves_king_safe(scratch: &mut Pos, m: &Mv, side: Side, king: Option<u8>) -> bool {
+        let from = m.from as usize;
+        let to = m.to as usize;
+        let saved_from = scratch.sq[from];
+        let saved_to = scratch.sq[to];
+        let mut extra: [(usize, Option<(P, Side)>); 2] = [(64, None), (64, None)];
+        let moving = scratch.sq[from].take();
+        match m.kind {
+            Kind::Std => scratch.sq[to] = moving,
+            Kind::Promo => scratch.sq[to] = Some((m.promo.unwrap(), side)),
+            Kind::Ep => {
+                scratch.sq[to] = moving;
+                let victim = sq_of(file_of(m.to), rank_of(m.from)).unwrap() as usize;
+                extra[0] = (victim, scratch.sq[victim]);
+                scratch.sq[victim] = None;
+            }
+            Kind::Castle => {
+                scratch.sq[to] = moving;
+                let (rf, rt) = if m.to > m.from {
+                    (m.from + 3, m.from + 1)
+                } else {
+                    (m.from - 4, m.from - 1)
+                };
+                extra[0] = (rf as usize, scratch.sq[rf as usize]);
+                extra[1] = (rt as usize, scratch.sq[rt as usize]);
+                scratch.sq[rt as usize] = scratch.sq[rf as usize].take();
             }
         }
-        out.sort();
-        out
+        let k = match moving {
+            Some((P::King, _)) => Some(m.to),
+            _ => king,
+        };
+        let safe = match k {
+            Some(k) => !scratch.attacked(k, side.other()),
+            None => true,
+        };
+        scratch.sq[from] = saved_from;
+        scratch.sq[to] = saved_to;
+        for (i, v) in extra {
+            if i < 64 {
+                scratch.sq[i] = v;
+            }
+        }
+        safe
     }
 
     /// Does `side` have at least one legal move? (early exit)
     pub fn has_legal_move(&self, side: Side) -> bool {
+        let mut scratch = self.clone();
+        let king = self.king_sq(side);
         for m in self.pseudo_moves(side) {
-            let mut after = self.clone();
-            after.sq = self.place(&m, side);
-            if !after.in_check(side) {
+            if Pos::leaves_king_safe(&mut scratch, &m, side, king) {
                 return true;
             }
         }
         false
+    }
+
+    pub fn legal_moves_for(&self, side: Side) -> Vec<Mv> {
+        let mut out = Vec::new();
+        let mut scratch = self.clone();
+        let king = self.king_sq(side);
+        for m in self.pseudo_moves(side) {
+            if Pos::leaves_king_safe(&mut scratch, &m, side, king) {
+                out.push(m);
+            }
+        }
+        debug_assert!(scratch.sq == self.sq);
+        out.sort();
+        out
     }
 
     pub fn legal_moves(&self) -> Vec<Mv> {
